@@ -280,6 +280,10 @@ func (r *Run) Finish(evaluations, distinct int, rule string) int {
 		}
 		return 1
 	}
+	if lim := evaluations / 50; r.inconclusive > 3 && r.inconclusive > lim {
+		fmt.Printf("CHECK-BROKEN property=%s %d of %d executions were inconclusive: too many to call the run 'held'\n", r.Prop, r.inconclusive, evaluations)
+		return 2
+	}
 	if len(r.broken) > 0 || evaluations < 1 || distinct < 2 {
 		fmt.Printf("CHECK-BROKEN property=%s the run observed too little to mean anything (evaluations=%d distinct=%d)\n",
 			r.Prop, evaluations, distinct)
